@@ -70,23 +70,29 @@ def run_type(variant, prog_path):
         b = empty_builder(variant)
         bref = Ref(Cell(b))
         outs2 = vm.run(f_push, [bref, Ref(Cell(s))], o.pc)
+        # every path is decided separately for a NULL cell, (strings) the empty string, and any other value, so that the
+        # recorded empty-string finding cannot stand in for a different cell
+        roles = [('null', Not(valid)), ('value', valid)]
+        if variant == 'String':
+            roles = [('null', Not(valid)), ('empty-string', And(valid, payload == 0)), ('value', And(valid, payload != 0))]
         for o2 in outs2:
-            pc = list(o2.pc) + list(STR_AXIOMS)
-            if o2.kind == 'panic' or (isinstance(o2.value, Enum) and o2.value.variant == 'Err'):
-                st, m = satisfiable(pc)
-                ob = {'kind': 'import-rejects-exported-cell', 'verdict': 'unsat' if st == 'unsat' else st}
+            for role, rc in roles:
+                pc = list(o2.pc) + list(STR_AXIOMS) + [rc]
+                if o2.kind == 'panic' or (isinstance(o2.value, Enum) and o2.value.variant == 'Err'):
+                    st, m = satisfiable(pc)
+                    ob = {'kind': 'import-rejects-exported-cell', 'verdict': 'unsat' if st == 'unsat' else st, 'role': role}
+                    if m is not None:
+                        ob['witness'] = witness(m, variant, valid, payload)
+                    obligations.append(ob)
+                    continue
+                nul, val = builder_cell(vm, o2.args[0], variant)
+                claim = And(nul == Not(valid), Or(nul, val == payload)) if val is not None else (nul == Not(valid))
+                st, m = check(pc, claim)
+                ob = {'kind': 'cell-changes', 'verdict': st, 'role': role}
                 if m is not None:
                     ob['witness'] = witness(m, variant, valid, payload)
+                    ob['imported_null'] = bool(is_true(m.eval(nul, model_completion=True)))
                 obligations.append(ob)
-                continue
-            nul, val = builder_cell(vm, o2.args[0], variant)
-            claim = And(nul == Not(valid), Or(nul, val == payload)) if val is not None else (nul == Not(valid))
-            st, m = check(pc, claim)
-            ob = {'kind': 'cell-changes', 'verdict': st}
-            if m is not None:
-                ob['witness'] = witness(m, variant, valid, payload)
-                ob['imported_null'] = bool(is_true(m.eval(nul, model_completion=True)))
-            obligations.append(ob)
     return {'variant': variant, 'obligations': obligations, 'fns': sorted(vm.trace_fns), 'natives': sorted(vm.used_natives)}
 
 
@@ -260,7 +266,7 @@ def main(tier, only=None):
             cell = o.get('witness', {}).get('cell')
             rp = replay(variant, cell)
             rep.cov['traces_validated_against_impl'] = rep.cov.get('traces_validated_against_impl', 0) + (1 if rp['reproduced'] else 0)
-            shape = 'null' if cell is None else ('empty-string' if cell == '' else 'value')
+            shape = o.get('role') or ('null' if cell is None else ('empty-string' if cell == '' else 'value'))
             key = 'csv:%s:%s:%s' % (variant, o['kind'], shape)
             what = 'CSV round trip of a %s cell %r: %s; end to end: import %s, exported %s, imported %s' % (
                 variant, cell, o['kind'], rp.get('how', {}).get('import'), rp.get('how', {}).get('exported_table'), rp.get('how', {}).get('imported_table'))
